@@ -7,7 +7,8 @@
    (unravel_k = convert.unravel_index, ravel_k = convert.ravel_multi_index, gather = fancy indexing
    t[axes], inv_perm = argsort of a permutation, argmin) are those of Model/Convert.v (property C05,
    validated there against NumPy); convert_coord is one iteration of _convert_coords with
-   transpose=False.  Not modelled: 0-d GCXS sources or targets (finding family D22), index dtypes
+   transpose=False.  0-d sources or targets of reshape, squeeze and broadcast_to go through COO
+   (x.tocoo().<op>().asformat("gcxs")), with GCXS.tocoo = Convert.gcxs_tocoo.  Not modelled: index dtypes
    (get_out_dtype; property C15).
 
    The three kernel applications go through the GENERATED call-site functions of Gen/S_shapeops.v
@@ -52,6 +53,8 @@ Definition c_ordering_all (t : list Z * list Z * list Z * list Z) : list Z :=
 
 Section G.
   Variable V : Type.
+  Variable veqb : V -> V -> bool.       (* used only by GCXS.tocoo (Model/Convert.v: its constructor call merges duplicates) *)
+  Variable add : V -> V -> V.
 
   (* linear_loc(np.stack((uncompress_dimension(indptr), indices)), x._compressed_shape) *)
   Definition g_linear (g : gcxs V) : list Z :=
@@ -143,7 +146,14 @@ Section G.
                                                 [row_size new_sh new_ca; col_size new_sh new_ca]) in
     gcxs_assemble new_sh new_ca conv (map snd kept) (g_fill g).
 
-  (* GCXS.reshape(shape); None = outside the modelled cases (0-d source or target) *)
+  (* asformat("gcxs") without compressed_axes: (argmin(shape),) for ndim >= 2 *)
+  Definition default_caxes (sh : shape) : list Z := if (2 <=? length sh)%nat then [argmin sh] else [].
+
+  (* x.tocoo().<COO method>(...).asformat("gcxs") *)
+  Definition via_coo (g : gcxs V) (f : coo V -> res (coo V)) : res (gcxs V) :=
+    c' <- f (gcxs_tocoo veqb add g) ;; Ok (gcxs_from_coo c' (default_caxes (c_shape c'))).
+
+  (* GCXS.reshape(shape); None = unreachable shape combination *)
   Definition gcxs_reshape (g : gcxs V) (new : list Z) : option (res (gcxs V)) :=
     let sh := g_shape g in
     match gcxs_reshape_shape sh new with
@@ -151,7 +161,7 @@ Section G.
     | Ok sh' =>
       if idx_eqb sh sh' then Some (Ok g)                                     (* return self *)
       else match sh, sh' with
-      | [], _ | _, [] => None
+      | [], _ | _, [] => Some (via_coo g (fun c => ShapeOps.coo_reshape c sh'))   (* 0-d source or target: through COO *)
       | [_], [_] => None                                                     (* unreachable: equal sizes *)
       | [_], _ => Some (Ok (gcxs_reshape_1_nd g sh' [argmin sh']))
       | _, [_] => Some (Ok (gcxs_reshape_nd_1 g sh'))
@@ -160,6 +170,11 @@ Section G.
         Some (Ok (gcxs_reshape_nd_nd g sh' ca'))
       end
     end.
+
+  (* GCXS.squeeze / GCXS.broadcast_to delegate to COO (commit f52a14b) *)
+  Definition gcxs_squeeze (g : gcxs V) (axis : axarg) : res (gcxs V) := via_coo g (fun c => coo_squeeze c axis).
+  Definition gcxs_broadcast_to (g : gcxs V) (target : list Z) : res (gcxs V) :=
+    via_coo g (fun c => coo_broadcast_to c target).
 
   Definition gcxs_flatten (g : gcxs V) : option (res (gcxs V)) := gcxs_reshape g [-1].
 End G.
@@ -178,3 +193,7 @@ Arguments gcxs_reshape_nd_1 {V}.
 Arguments gcxs_reshape_1_nd {V}.
 Arguments gcxs_reshape {V}.
 Arguments gcxs_flatten {V}.
+Arguments default_caxes sh : simpl never.
+Arguments via_coo {V}.
+Arguments gcxs_squeeze {V}.
+Arguments gcxs_broadcast_to {V}.
